@@ -1,4 +1,5 @@
 import Lemmas.EvalFull
+import Lemmas.EvalVars
 import Model.EvalFixed
 /-! C09, values of the fixed evaluator: `EvalFixed.evaluate` on the rendering of a well-formed expression is the value
     of the expression TREE, each node applying the operation of `Model/Fixed.lean` / `Model/FixedText.lean`
@@ -521,5 +522,130 @@ theorem XL.vals_ne_panic (c : Cfg) : ∀ l : XL, ∀ v ∈ l.vals c, v ≠ .pani
     · subst h; exact X.val_ne_panic c a
     · exact XL.vals_ne_panic c t v h
 end
+
+end Eval
+
+/-! ### values of expressions with variables (resolver answers are literals) -/
+namespace Eval
+open EvalFixed
+
+mutual
+theorem X.ar_substAll (f : Bytes → Bytes) : ∀ e : X, e.Ar → (e.substAll f).Ar
+  | .atom _ _, _ => by simp [X.substAll, X.Ar]
+  | .call u g b args, h => by
+    simp only [X.Ar] at h
+    simp only [X.substAll, X.Ar, XL.length_substAll]
+    exact ⟨h.1, h.2.1, XL.ar_substAll f args h.2.2⟩
+  | .bin o l r, h => by
+    simp only [X.Ar] at h
+    simp only [X.substAll, X.Ar]
+    exact ⟨X.ar_substAll f l h.1, X.ar_substAll f r h.2⟩
+  | .paren u e, h => by
+    simp only [X.Ar] at h
+    simp only [X.substAll, X.Ar]
+    exact X.ar_substAll f e h
+theorem XL.ar_substAll (f : Bytes → Bytes) : ∀ l : XL, l.Ar → (l.substAll f).Ar
+  | .nil, _ => by simp [XL.substAll, XL.Ar]
+  | .cons a w t, h => by
+    simp only [XL.Ar] at h
+    simp only [XL.substAll, XL.Ar]
+    exact ⟨X.ar_substAll f a h.1, XL.ar_substAll f t h.2⟩
+theorem XL.length_substAll (f : Bytes → Bytes) : ∀ l : XL, (l.substAll f).length = l.length
+  | .nil => rfl
+  | .cons a w t => by simp only [XL.substAll, XL.length, XL.length_substAll f t]
+end
+
+/-- evaluating the tree of an expression WITH variables: a variable leaf is the text the resolver answers with, the
+    argument text of a call is substituted before it is parsed again — the result is the value of the tree of the
+    substituted expression -/
+theorem X.fx_eval_tree_all (c : Cfg) (hc : Fixed.F64.inc c.mult 0 ≠ 0) (ops : List Op) (fns : List Bytes)
+    (f : Bytes → Bytes) (lp rp : Op) (hF : FullTable ops lp rp) (hS : ∀ o ∈ ops, ∀ c t, o.sym = c :: t → Stopper c) :
+    ∀ e : X, e.WF ops fns lp.prec → e.EvAll ops f → e.Ar → ∀ depth, e.cd ≤ depth →
+      EvalFixed.evalNode c (EvalFixed.evaluate c ops fns (some f) depth) (replaceVariables (some f)) (e.toE lp rp).toTree =
+        ((e.substAll f).val c).some
+  | .atom u x, _, he, _, depth, _ => by
+    simp only [X.EvAll] at he
+    rcases he with he | ⟨name, hx, hn, hv, ha, h44, h36⟩
+    · simp only [X.toE, E.toTree, EvalFixed.evalNode, replaceVariables_id (some f) x he.2, X.val, X.substAll,
+        substAtom_clean f x he.2]
+      cases EvalFixed.applyUn c u (Val.str x) <;> rfl
+    · subst hx
+      have ht : trimSpace (f name) ≠ [] := by
+        have := trimSpace_atom (f name) [] ha.1 ha.2.1 (by intro c hc; cases hc)
+        rw [List.append_nil] at this
+        rw [this]; exact ha.1
+      simp only [X.toE, E.toTree, EvalFixed.evalNode, replaceVariables_var f name hn hv h36 ht, X.val, X.substAll,
+        substAtom]
+      cases EvalFixed.applyUn c u (Val.str (f name)) <;> rfl
+  | .call u g b args, hw, he, har, depth, hd => by
+    simp only [X.WF] at hw
+    simp only [X.EvAll] at he
+    simp only [X.Ar] at har
+    cases depth with
+    | zero => simp [X.cd] at hd
+    | succ d =>
+      have hd' : (args.substAll f).cd ≤ d := by rw [XL.cd_substAll]; simp only [X.cd] at hd; omega
+      have hrv := XL.replaceVariables_texts ops fns f lp rp hF hS args hw.2.2.2.2 he.2.2
+      have hok := XL.substAll_ok ops fns f lp.prec args hw.2.2.2.2 he.2.2
+      have hcall : EvalFixed.call c (EvalFixed.evaluate c ops fns (some f) (d + 1)) g
+          (joinComma ((args.substAll f).texts lp rp)) = callV c g ((args.substAll f).vals c) :=
+        XL.fx_call c hc ops fns (some f) lp rp hF g (args.substAll f) hok.1 hok.2 (XL.ar_substAll f args har.2.2)
+          (by rw [XL.length_substAll]; exact har.1) (by rw [XL.length_substAll]; exact har.2.1) d hd'
+      simp only [X.toE, E.toTree, EvalFixed.evalNode, hrv, hcall, X.val, X.substAll]
+      cases callV c g ((args.substAll f).vals c) with
+      | ok v => simp only [VR.bind]; cases EvalFixed.applyUn c u v <;> rfl
+      | err => rfl
+      | panic => rfl
+      | outside => rfl
+  | .bin o l r, hw, he, har, depth, hd => by
+    simp only [X.WF] at hw
+    simp only [X.EvAll] at he
+    simp only [X.Ar] at har
+    have hdl : l.cd ≤ depth := by simp only [X.cd] at hd; omega
+    have hdr : r.cd ≤ depth := by simp only [X.cd] at hd; omega
+    have h1 := X.fx_eval_tree_all c hc ops fns f lp rp hF hS l hw.2.2.2.2.1 he.2.1 har.1 depth hdl
+    have h2 := X.fx_eval_tree_all c hc ops fns f lp rp hF hS r hw.2.2.2.2.2.1 he.2.2 har.2 depth hdr
+    simp only [X.toE, E.toTree, EvalFixed.evalNode, h1, h2, X.toTree_isNil, X.val, X.substAll]
+    cases (l.substAll f).val c with
+    | ok a =>
+      cases (r.substAll f).val c with
+      | ok b2 =>
+        simp only [VR.some, VR.bind, he.1, Bool.not_false, Bool.and_self, if_true, Bool.not_true, Bool.false_eq_true,
+          if_false]
+        cases binary c o.sym a b2 <;> simp [VR.some, EvalFixed.applyUn]
+      | err => rfl
+      | panic => rfl
+      | outside => rfl
+    | err => rfl
+    | panic => rfl
+    | outside => rfl
+  | .paren u e, hw, he, har, depth, hd => by
+    simp only [X.WF] at hw
+    simp only [X.EvAll] at he
+    simp only [X.Ar] at har
+    have h1 := X.fx_eval_tree_all c hc ops fns f lp rp hF hS e hw.2 he har depth (by simpa only [X.cd] using hd)
+    cases u with
+    | none => simpa [X.toE, E.toTree, wrapN, X.val, X.substAll] using h1
+    | some v =>
+      have hv : v.un = true := (hw.1 v rfl).2
+      simp only [X.toE, E.toTree, wrapN, EvalFixed.evalNode, h1, X.val, X.substAll]
+      cases (e.substAll f).val c with
+      | ok a =>
+        simp only [VR.some, VR.bind, X.toTree_isNil, Node.isNil, Option.filter, hv, Bool.not_false, Bool.not_true,
+          Bool.and_false, Bool.false_eq_true, if_false, if_true]
+        cases unary c v.sym a <;> rfl
+      | err => rfl
+      | panic => rfl
+      | outside => rfl
+
+/-- **Evaluate ∘ render = value of the tree of the substituted expression**, variables anywhere -/
+theorem X.fx_evaluate_render_all (c : Cfg) (hc : Fixed.F64.inc c.mult 0 ≠ 0) (ops : List Op) (fns : List Bytes)
+    (f : Bytes → Bytes) (lp rp : Op) (hF : FullTable ops lp rp) (hS : ∀ o ∈ ops, ∀ c t, o.sym = c :: t → Stopper c)
+    (e : X) (hw : e.WF ops fns lp.prec) (he : e.EvAll ops f) (har : e.Ar) (ws : Nat → Bytes)
+    (hws : ∀ k, Blank (ws k)) (depth : Nat) (hd : e.cd ≤ depth) :
+    EvalFixed.evaluate c ops fns (some f) (depth + 1) (e.render lp rp ws) = (e.substAll f).val c := by
+  simp only [EvalFixed.evaluate, X.parse_render ops fns lp rp hF e hw ws hws, X.tree,
+    X.fx_eval_tree_all c hc ops fns f lp rp hF hS e hw he har depth hd]
+  cases (e.substAll f).val c <;> rfl
 
 end Eval
